@@ -102,7 +102,8 @@ def _tables(rng, n, kmax, ntarget=None):
         ln[s] = rng.randint(0, K)
         for k in range(ln[s]):
             idx[s, k] = rng.randrange(ntarget)
-            ker[s, k] = rng.choice([rng.uniform(-2, 2), 0.0, 1.0])
+            # -1.0 is also the value the unused table slots are padded with: a legitimate weight must not be mistaken for padding
+            ker[s, k] = rng.choice([rng.uniform(-2, 2), rng.uniform(-2, 2), 0.0, 1.0, -1.0, 2.0, -0.5])
     return idx, ker, ln
 
 
